@@ -1142,8 +1142,16 @@ LB_dealloc(LB* self)
         self._scache.clear()
 */
 static PyObject*
-LB_changed(LB* self, PyObject* ignored)
+LB_changed(LB* self, PyObject* args, PyObject* kwds)
 {
+    /* def changed(self, ignored=None) */
+    static char* kwlist[] = { "ignored", NULL };
+    PyObject* ignored = NULL;
+
+    if (!PyArg_ParseTupleAndKeywords(
+          args, kwds, "|O:changed", kwlist, &ignored))
+        return NULL;
+
     LB_clear(self);
     Py_INCREF(Py_None);
     return Py_None;
@@ -1653,7 +1661,10 @@ LB_subscriptions(LB* self, PyObject* args, PyObject* kwds)
 }
 
 static struct PyMethodDef LB_methods[] = {
-    { "changed", (PyCFunction)LB_changed, METH_O, "" },
+    { "changed",
+      (PyCFunction)LB_changed,
+      METH_KEYWORDS | METH_VARARGS,
+      "" },
     { "lookup", (PyCFunction)LB_lookup, METH_KEYWORDS | METH_VARARGS, "" },
     { "lookup1",
       (PyCFunction)LB_lookup1,
